@@ -773,6 +773,11 @@ func (fr *Frame) enterLoop(li *loopInfo, h *ssa.BasicBlock, preds []*ssa.BasicBl
 					case *ssa.Alloc, *ssa.MakeMap:
 						continue // fresh object created inside the loop
 					}
+					// a load of a field that the loop does not write, from a loop-invariant object
+					if t, ok := fr.invariantRef(rv, li, hs); ok {
+						refs = append(refs, t)
+						continue
+					}
 					precise = false
 					break
 				}
@@ -837,6 +842,44 @@ func (fr *Frame) enterLoop(li *loopInfo, h *ssa.BasicBlock, preds []*ssa.BasicBl
 		}
 	}
 	return hs
+}
+
+// invariantRef: the value of a reference computed inside a loop as a chain of loads of fields
+// that the loop never writes, starting from a value defined outside the loop, is the same in every
+// iteration and can be evaluated in the header state.
+func (fr *Frame) invariantRef(v ssa.Value, li *loopInfo, hs *State) (string, bool) {
+	if ins, ok := v.(ssa.Instruction); !ok || !li.body[ins.Block()] {
+		if val, ok := fr.vals[v]; ok && val.LV != nil && val.LV.kind != lvObj {
+			return "", false
+		}
+		if _, ok := fr.vals[v]; !ok {
+			if _, isConst := v.(*ssa.Const); !isConst {
+				return "", false
+			}
+		}
+		return fr.term(v, hs).S, true
+	}
+	u, ok := v.(*ssa.UnOp)
+	if !ok || u.Op != token.MUL {
+		return "", false
+	}
+	fa, ok := u.X.(*ssa.FieldAddr)
+	if !ok {
+		return "", false
+	}
+	sty, stt, ok := isPtrToStruct(fa.X.Type())
+	if !ok {
+		return "", false
+	}
+	key := fieldKey(sty, stt.Field(fa.Field).Name())
+	if li.ws.Keys[key] || li.ws.All {
+		return "", false
+	}
+	base, ok := fr.invariantRef(fa.X, li, hs)
+	if !ok {
+		return "", false
+	}
+	return app("select", fr.c.heapGet(hs, key), base), true
 }
 
 func (fr *Frame) definedBefore(name string, h *ssa.BasicBlock) bool {
@@ -1294,6 +1337,12 @@ func (fr *Frame) unop(x *ssa.UnOp, st *State) {
 	c := fr.c
 	switch x.Op {
 	case token.MUL:
+		if g, ok := x.X.(*ssa.Global); ok {
+			if k := c.eng.constGlobal(g); k != nil {
+				fr.vals[x] = Val{T: fr.constVal(k)}
+				return
+			}
+		}
 		lv := fr.lvalOf(x.X, st)
 		if lv.kind == lvObj || (lv.kind == lvHeap && strings.HasPrefix(lv.key, "c:")) {
 			fr.nopanic(st, "nil", x.Pos(), not(app("=", lv.ref, "0")), "nil dereference")
